@@ -732,10 +732,26 @@ def _basis_SQRTISWAP(qc_temp, temp_resolved):
             qc_temp.gates.append(gate)
 
 
+def _hand_on_condition(gate, new_gates):
+    """
+    The gates that replace ``gate`` are executed under the classical
+    condition of ``gate`` (classical_controls, classical_control_value).
+    """
+    if gate.classical_controls is None:
+        return
+    for new_gate in new_gates:
+        if new_gate is not gate:
+            new_gate.classical_controls = list(gate.classical_controls)
+            new_gate.classical_control_value = gate.classical_control_value
+
+
 def _resolve_2q_basis(basis, qc_temp, temp_resolved):
     """Dispatch method"""
     method = globals()["_basis_" + str(basis)]
-    method(qc_temp, temp_resolved)
+    for gate in temp_resolved:
+        start = len(qc_temp.gates)
+        method(qc_temp, [gate])
+        _hand_on_condition(gate, qc_temp.gates[start:])
 
 
 def _resolve_to_universal(gate, temp_resolved, basis_1q, basis_2q):
@@ -747,4 +763,6 @@ def _resolve_to_universal(gate, temp_resolved, basis_1q, basis_2q):
             method = _gate_IGNORED
         else:
             method = globals()["_gate_" + str(gate.name)]
+    start = len(temp_resolved)
     method(gate, temp_resolved)
+    _hand_on_condition(gate, temp_resolved[start:])
